@@ -38,6 +38,7 @@ static void gen_valid(long idx, cm_model_t *m) {
 	if (idx < 12) { nb = 1; prof[0] = (int) idx; } else if (idx < 156) { idx -= 12; nb = 2; prof[0] = (int) (idx % 12); prof[1] = (int) (idx / 12); }
 	else { idx -= 156; nb = 3; prof[0] = (int) (idx % 12); prof[1] = (int) (idx / 12); prof[2] = (int) ((idx * 7 + 3) % 12); }
 	m->nb = nb; int dccn = 0, uniq = 0; g_prefix_ids = vp == 1; char base[24]; m->hex_case = tp % 3;      /* hexadecimal values as emitted / all upper case / all lower case */
+	m->num_style = (naspects + vp) % 3;                /* byte-sized values hexadecimal / decimal / decimal with leading zeros */
 	for (int b = 0; b < nb; b++) {
 		cm_board_t *B = &m->b[b]; if (g_prefix_ids) nm(B->id, sizeof B->id, "b", b); else snprintf(B->id, sizeof B->id, "b%d%s", b, vp == 2 ? "_long_board_name" : "");
 		B->uid[0] = UIDCLASS[b]; B->uid[1] = 0; B->uid[2] = 0x0D; B->uid[3] = 0x60; B->uid[4] = (uint8_t) b; B->uid[5] = val3(vp, b); B->uid[6] = (uint8_t) (0xE0 + b);
